@@ -2,8 +2,8 @@
    the meanings of Src/Prims.v, bridged to Path.comps / Path.clean in PrimsP; the call of containsWildcards
    through its own translation), computes exactly what the copy model's resolve_wild computes:
    components of Clean(p) ("" for an empty p, an empty component standing for "/"), split before the
-   first wildcard component by Copier.split_wild, each half joined and cleaned ("" for an empty half) —
-   for every p whose components hold no backslash (the copy model's domain: has_unsupported). *)
+   first wildcard component by the escape-aware Copier.split_wild_e, each half joined and cleaned ("" for an
+   empty half) — for ALL p; on backslash-free p that is the escape-free split_wild (corollary). *)
 From Coq Require Import List NArith ZArith Bool Lia.
 From FS Require Import Sx Model.Path Src.Prims Proofs.Src.PrimsP.
 From FS Require Model.Copier Proofs.Src.CopyContainsWildcardsEq.
@@ -15,67 +15,76 @@ Definition comps0 (p : bytes) : list bytes := match p with [] => [[]] | _ => com
 Definition jn (l : list bytes) : bytes := match l with [] => [] | _ => clean (joinc l) end.
 Definition no_bsl (c : bytes) : bool := negb (existsb (N.eqb Copier.ch_bsl) c).
 
-Lemma has_wild_fixc : forall c, Copier.has_wild (fixc c) = Copier.has_wild c.
+Lemma has_wild_e_fixc : forall c, Copier.has_wild_e (fixc c) = Copier.has_wild_e c.
 Proof. destruct c; reflexivity. Qed.
 
-Lemma loop_found : forall l p1 p2, forallb no_bsl l = true ->
+Lemma loop_found : forall l p1 p2,
   SrcFns.splitWildcards_loop1 l p1 p2 true = Done (p1, p2 ++ map fixc l, true).
 Proof.
-  induction l as [|c l IH]; intros p1 p2 H.
+  induction l as [|c l IH]; intros p1 p2.
   - cbn. now rewrite app_nil_r.
-  - cbn [forallb] in H. apply andb_true_iff in H. destruct H as [Hc Hl].
-    cbn [SrcFns.splitWildcards_loop1 map].
-    rewrite CopyContainsWildcardsEq.copy_containsWildcards_src_eq
-      by (unfold no_bsl in Hc; now apply negb_true_iff in Hc).
+  - cbn [SrcFns.splitWildcards_loop1 map].
+    rewrite CopyContainsWildcardsEq.copy_containsWildcards_src_eq.
     cbn [negb andb]. destruct c as [|x c]; cbn [Prims.bytes_eqb fixc negb];
-      rewrite IH by exact Hl; rewrite <- app_assoc; reflexivity.
+      rewrite IH; rewrite <- app_assoc; reflexivity.
 Qed.
 
-Lemma loop_spec : forall l p1 p2, forallb no_bsl l = true ->
+Lemma loop_spec : forall l p1 p2,
   exists f, SrcFns.splitWildcards_loop1 l p1 p2 false =
-            Done (p1 ++ fst (Copier.split_wild (map fixc l)), p2 ++ snd (Copier.split_wild (map fixc l)), f).
+            Done (p1 ++ fst (Copier.split_wild_e (map fixc l)), p2 ++ snd (Copier.split_wild_e (map fixc l)), f).
 Proof.
-  induction l as [|c l IH]; intros p1 p2 H.
+  induction l as [|c l IH]; intros p1 p2.
   - exists false. cbn. now rewrite !app_nil_r.
-  - cbn [forallb] in H. apply andb_true_iff in H. destruct H as [Hc Hl].
-    cbn [SrcFns.splitWildcards_loop1 map Copier.split_wild].
-    rewrite CopyContainsWildcardsEq.copy_containsWildcards_src_eq
-      by (unfold no_bsl in Hc; now apply negb_true_iff in Hc).
-    rewrite has_wild_fixc. cbn [negb andb].
-    destruct (Copier.has_wild c) eqn:Hw.
+  - cbn [SrcFns.splitWildcards_loop1 map Copier.split_wild_e].
+    rewrite CopyContainsWildcardsEq.copy_containsWildcards_src_eq.
+    rewrite has_wild_e_fixc. cbn [negb andb].
+    destruct (Copier.has_wild_e c) eqn:Hw.
     + (* first wildcard component: everything from here on goes to p2 *)
       exists true. cbn [fst snd]. rewrite app_nil_r.
       destruct c as [|x c]; cbn [Prims.bytes_eqb fixc negb];
-        rewrite loop_found by exact Hl; rewrite <- app_assoc; reflexivity.
-    + destruct (IH (p1 ++ [fixc c]) p2 Hl) as [f Hf]. exists f.
-      destruct (Copier.split_wild (map fixc l)) as [a b] eqn:E. cbn [fst snd] in *.
+        rewrite loop_found; rewrite <- app_assoc; reflexivity.
+    + destruct (IH (p1 ++ [fixc c]) p2) as [f Hf]. exists f.
+      destruct (Copier.split_wild_e (map fixc l)) as [a b] eqn:E. cbn [fst snd] in *.
       destruct c as [|x c]; cbn [Prims.bytes_eqb fixc negb] in *; refine (eq_trans Hf _); rewrite <- app_assoc; reflexivity.
 Qed.
 
-Lemma split_wild_nonempty : forall cs, forallb nonempty_b cs = true ->
-  forallb nonempty_b (fst (Copier.split_wild cs)) = true /\ forallb nonempty_b (snd (Copier.split_wild cs)) = true.
+Lemma split_wild_e_nonempty : forall cs, forallb nonempty_b cs = true ->
+  forallb nonempty_b (fst (Copier.split_wild_e cs)) = true /\ forallb nonempty_b (snd (Copier.split_wild_e cs)) = true.
 Proof.
   induction cs as [|c cs IH]; intros H; [split; reflexivity|].
-  cbn [Copier.split_wild]. destruct (Copier.has_wild c).
+  cbn [Copier.split_wild_e]. destruct (Copier.has_wild_e c).
   - split; [reflexivity|exact H].
   - cbn [forallb] in H. apply andb_true_iff in H. destruct H as [Hc Hl]. destruct (IH Hl) as [Ha Hb].
-    destruct (Copier.split_wild cs) as [a b]. cbn [fst snd forallb] in *. now rewrite Hc, Ha.
+    destruct (Copier.split_wild_e cs) as [a b]. cbn [fst snd forallb] in *. now rewrite Hc, Ha.
 Qed.
 
 Lemma map_fixc_nonempty : forall l, forallb nonempty_b (map fixc l) = true.
 Proof. induction l as [|c l IH]; [reflexivity|]. cbn [map forallb]. rewrite IH. destruct c; reflexivity. Qed.
 
+(* for ALL inputs: the escape-aware split of the copy model's resolve_wild *)
 Theorem splitWildcards_src_eq : forall p,
-  forallb no_bsl (comps0 p) = true ->
   SrcFns.splitWildcards p =
-  Some (jn (fst (Copier.split_wild (map fixc (comps0 p)))), jn (snd (Copier.split_wild (map fixc (comps0 p))))).
+  Some (jn (fst (Copier.split_wild_e (map fixc (comps0 p)))), jn (snd (Copier.split_wild_e (map fixc (comps0 p))))).
 Proof.
-  intros p H. unfold SrcFns.splitWildcards. cbv zeta.
+  intros p. unfold SrcFns.splitWildcards. cbv zeta.
   assert (Hparts : Prims.strings_Split (Prims.filepath_Join [p]) [Prims.filepath_Separator] = comps0 p).
   { rewrite strings_Split_sep. unfold comps0, Prims.filepath_Join. destruct p; [reflexivity|].
     cbn [filter Prims.clean_joinc]. rewrite filepath_Clean_bridge. reflexivity. }
   rewrite Hparts.
-  destruct (loop_spec (comps0 p) [] [] H) as [f Hf]. rewrite Hf. cbn [app].
-  destruct (split_wild_nonempty (map fixc (comps0 p)) (map_fixc_nonempty _)) as [Ha Hb].
+  destruct (loop_spec (comps0 p) [] []) as [f Hf]. rewrite Hf. cbn [app].
+  destruct (split_wild_e_nonempty (map fixc (comps0 p)) (map_fixc_nonempty _)) as [Ha Hb].
   rewrite !filepath_Join_nonempty by assumption. reflexivity.
+Qed.
+
+(* the earlier statement (escape-free split_wild on the backslash-free domain) as a corollary *)
+From FS Require Proofs.CopyWildP.
+Corollary splitWildcards_backslash_free : forall p,
+  forallb no_bsl (comps0 p) = true ->
+  SrcFns.splitWildcards p =
+  Some (jn (fst (Copier.split_wild (map fixc (comps0 p)))), jn (snd (Copier.split_wild (map fixc (comps0 p))))).
+Proof.
+  intros p H. rewrite splitWildcards_src_eq.
+  rewrite (CopyWildP.split_wild_e_plain (map fixc (comps0 p))); [reflexivity|].
+  rewrite forallb_forall in *. intros c Hc. apply in_map_iff in Hc. destruct Hc as [c0 [<- Hc0]].
+  specialize (H c0 Hc0). unfold no_bsl in H. destruct c0; [reflexivity|exact H].
 Qed.
